@@ -25,8 +25,10 @@ registry! {
     "C04" => c04,
     "C05" => c05,
     "C06" => c06,
+    "C19" => c19,
     "C20" => c20,
     "C21" => c21,
+    "C23" => c23,
     "C24" => c24,
     "C07" => c07,
     "C11" => c11,
